@@ -45,7 +45,7 @@ pub fn make_q(spec: &Value) -> f64 {
         let bits = base.to_bits() as i64 + steps;
         if base == 0.0 || bits <= 0 { base } else { f64::from_bits(bits as u64) }
     };
-    q.clamp(0.0, 1.0)
+    if spec.get("bad").and_then(|x| x.as_bool()).unwrap_or(false) { q } else { q.clamp(0.0, 1.0) }
 }
 
 /// Exact information about the real number P = q*(n-1) for an f64 q in [0,1]:
@@ -281,16 +281,19 @@ fn quantile_ev<T: StratNum>(case: &Value, out: &mut Vec<Value>) {
     };
     verif_hooks::set_script(script.clone(), fb);
     // result: flattened logical order + shape; singles: per q the flattened single-call result on a fresh copy
+    // g1: the receiver's own geometry (shape, strides, first element) after the call, read from the receiver object
+    let g1cell: std::cell::RefCell<Option<Value>> = std::cell::RefCell::new(None);
     let r = guarded(|| {
         let mut v = lay.view_mut(&mut parent);
         match api {
-            "axis_bulk" => bulk_call(&mut v, axis, &qs, strat).map(|a| (a.shape().to_vec(), a.iter().cloned().collect::<Vec<T>>())),
-            "axis_single" => single_call(&mut v, axis, qs[0], strat).map(|a| (a.shape().to_vec(), a.iter().cloned().collect::<Vec<T>>())),
-            "1d_bulk" => { let mut v1 = v.into_dimensionality::<Ix1>().unwrap(); one_d_bulk(&mut v1, &qs, strat).map(|a| (a.shape().to_vec(), a.to_vec())) }
-            "1d_single" => { let mut v1 = v.into_dimensionality::<Ix1>().unwrap(); one_d_single(&mut v1, qs[0], strat).map(|x| (vec![], vec![x])) }
+            "axis_bulk" => { let r = bulk_call(&mut v, axis, &qs, strat).map(|a| (a.shape().to_vec(), a.iter().cloned().collect::<Vec<T>>())); *g1cell.borrow_mut() = Some(geom(base, &v)); r }
+            "axis_single" => { let r = single_call(&mut v, axis, qs[0], strat).map(|a| (a.shape().to_vec(), a.iter().cloned().collect::<Vec<T>>())); *g1cell.borrow_mut() = Some(geom(base, &v)); r }
+            "1d_bulk" => { let mut v1 = v.into_dimensionality::<Ix1>().unwrap(); let r = one_d_bulk(&mut v1, &qs, strat).map(|a| (a.shape().to_vec(), a.to_vec())); *g1cell.borrow_mut() = Some(geom(base, &v1)); r }
+            "1d_single" => { let mut v1 = v.into_dimensionality::<Ix1>().unwrap(); let r = one_d_single(&mut v1, qs[0], strat).map(|x| (vec![], vec![x])); *g1cell.borrow_mut() = Some(geom(base, &v1)); r }
             _ => panic!("api {api}"),
         }
     });
+    let g1 = g1cell.into_inner();
     let pvlog = verif_hooks::take_log();
     let mem1 = proj_vals(&mem_of(&parent), bexp);
     // the same call once more on the (now rearranged) buffer, under fresh random pivots: the answer must not change
@@ -322,6 +325,7 @@ fn quantile_ev<T: StratNum>(case: &Value, out: &mut Vec<Value>) {
         "scale": T::scale(), "wide": wide,
         "lanes": lanes.iter().map(|l| proj_vals(l, bexp)).collect::<Vec<_>>(), "qs": qi,
         "out": outc, "rshape": rshape, "res": res, "out2": out2, "res2": res2, "mem0": mem0, "mem1": mem1, "npiv": pvlog.len()});
+    if let Some(g1) = g1 { o.as_object_mut().unwrap().insert("g1".into(), g1); }
     // C18: the same request item by item on fresh copies
     if case.get("pair").and_then(|x| x.as_bool()).unwrap_or(false) {
         let mut singles: Vec<Value> = Vec::new();
@@ -600,6 +604,7 @@ pub fn gen(seed: u64, count: usize, tier: &str, params: &Params) -> Vec<Value> {
     let mut rng = Rng(seed ^ 0x9047);
     let kinds: Vec<&str> = params.get("kinds").map(|s| s.split('/').collect()).unwrap_or_else(|| vec!["quantile"]);
     let pair = params.get("pair").map(|s| s == "1").unwrap_or(false);
+    let badq = params.get("badq").map(|s| s == "1").unwrap_or(false);
     let types: Vec<&str> = params.get("types").map(|s| s.split('/').collect()).unwrap_or_else(|| vec!["i8", "u8", "i32", "i64", "u64", "n64"]);
     let maxn = if tier == "thorough" { 9 } else { 6 };
     let mut cases = Vec::new();
@@ -687,6 +692,8 @@ pub fn gen(seed: u64, count: usize, tier: &str, params: &Params) -> Vec<Value> {
                     }
                     qs.sort_by(|x, y| make_q(x).partial_cmp(&make_q(y)).unwrap());
                 }
+                // frame stages only: a request outside [0, 1] somewhere in the list (the call is rejected; the frame clauses hold for it too)
+                if badq && !qs.is_empty() && rng.chance(1, 6) { let k = rng.below(qs.len() as u64) as usize; qs[k] = if rng.chance(1, 2) { json!({"a": 3, "b": 2, "u": 0, "bad": true}) } else { json!({"a": -1, "b": 4, "u": 0, "bad": true}) }; }
                 let api = if nd == 1 && rng.chance(1, 2) { if nq == 1 && rng.chance(1, 2) { "1d_single" } else { "1d_bulk" } }
                           else if nq == 1 && rng.chance(1, 2) { "axis_single" } else { "axis_bulk" };
                 let script: Vec<i64> = if rng.chance(1, 3) { (0..rng.below(6)).map(|_| rng.below(1000) as i64).collect() } else { vec![] };
